@@ -432,9 +432,12 @@ BlockFill(seed, p, q, m, n, cplx) ==
 BuildCore(r1, r2, m, n, present, cplx, flag, form) ==
     /\ "BuildCore" \in Ops
     /\ present # {}
-    /\ (cplx => flag)                \* complex blocks need iscomplex=True
+    \* cplx: "no" | "all" | "altA" / "altB" (complex and real blocks mixed: blocks with p + q even / odd are complex).
+    \* Complex blocks make the core complex also when iscomplex is left at its default False (dtype promotion).
     /\ (form = "vector" => r2 = 1)   \* input form (2): a flat list of r1 blocks
-    /\ LET blk(p, q) == BlockFill(Len(hist) + 1, p, q, m, n, cplx)
+    /\ LET isc(p, q) == CASE cplx = "no" -> FALSE [] cplx = "all" -> TRUE
+                           [] cplx = "altA" -> (p + q) % 2 = 0 [] OTHER -> (p + q) % 2 = 1
+           blk(p, q) == BlockFill(Len(hist) + 1, p, q, m, n, isc(p, q))
            dn == MkG(<<m>>, <<n>>, r1, r2, LAMBDA p, I, J, q :
                         IF <<p + 1, q + 1>> \in present THEN blk(p + 1, q + 1)[I[1] + 1][J[1] + 1] ELSE CZ)
            lst == [p \in 1..r1 |-> [q \in 1..r2 |->
@@ -707,7 +710,7 @@ Next ==
        \/ \E dims \in CtorDims : \E inds \in {f \in [1..Len(dims) -> 0..2] : \A k \in 1..Len(dims) : f[k] < dims[k]} :
              Unit(dims, inds)
        \/ \E dims \in CtorDims, r \in RanksS, nrm \in {1, 3} : Uniform(dims, r, nrm)
-       \/ \E r1 \in RanksS, r2 \in RanksS, m \in DimsR, n \in DimsC, cplx \in BOOL2, flag \in BOOL2,
+       \/ \E r1 \in RanksS, r2 \in RanksS, m \in DimsR, n \in DimsC, cplx \in {"no", "all", "altA", "altB"}, flag \in BOOL2,
              form \in {"matrix", "vector"} :
              \E present \in SUBSET ((1..r1) \X (1..r2)) : BuildCore(r1, r2, m, n, present, cplx, flag, form)
 
